@@ -349,8 +349,8 @@ def rand_term(rng, db, vs, depth, heads):
 def gen_database(rng, idx=0, shape=None):
     """returns (db, target assertion, derivation Node, info dict)"""
     db = Database()
-    nv = rng.randint(3, 5)
-    names = rng.choice([['ph%d' % i for i in range(nv)], ['ph0', 'ps', 'ch', 'th', 'ta'][:nv],
+    nv = rng.randint(3, 6)
+    names = rng.choice([['ph%d' % i for i in range(nv)], ['ph0', 'ps', 'ch', 'th', 'ta', 'et'][:nv],
                         ['x%d' % i for i in range(nv)]])
     db.vars = list(names)
     decl_order = list(names)
@@ -363,11 +363,21 @@ def gen_database(rng, idx=0, shape=None):
     db.use_app = rng.random() < 0.4
     # constructors
     heads = [(IMP, 2)]
-    items_ctor = [('a', Assertion('imp-is-pattern', '#Pattern', [A(IMP, V(fvars[0]), V(fvars[1]))]))]
+    # the variables the built-in constructors and the three proof rules are stated over: in half of the databases the first
+    # floats (as in every shipped file), otherwise any variables in $f order (an extra pattern variable may come first, the
+    # rules may use later variables, each rule its own)
+    classic = rng.random() < 0.5
+
+    def pick(k):
+        idx = list(range(k)) if classic else sorted(rng.sample(range(len(fvars)), k))
+        return [fvars[j] for j in idx]
+    iv = pick(2)
+    items_ctor = [('a', Assertion('imp-is-pattern', '#Pattern', [A(IMP, V(iv[0]), V(iv[1]))]))]
     if db.use_app:
         heads.append((APP, 2))
         lbl = rng.choice(['app-is-pattern', 'app-is-pattern', 'wapp'])
-        items_ctor.append(('a', Assertion(lbl, '#Pattern', [A(APP, V(fvars[0]), V(fvars[1]))])))
+        av = pick(2)
+        items_ctor.append(('a', Assertion(lbl, '#Pattern', [A(APP, V(av[0]), V(av[1]))])))
     nconst = rng.randint(1, 4)
     for i in range(nconst):
         c = '\\k%d' % i
@@ -400,11 +410,12 @@ def gen_database(rng, idx=0, shape=None):
         items_ctor.append(('a', Assertion('n%d-is-pattern' % i, '#Pattern', [A(c, *[V(p) for p in params])])))
         heads.append((c, k))
     # proof rules (canonical, over the first three floats)
-    p0, p1, p2 = V(fvars[0]), V(fvars[1]), V(fvars[2])
+    v1, v2, vm = pick(2), pick(3), pick(2)
     rules = [
-        ('a', Assertion('proof-rule-prop-1', '|-', [imp(p0, imp(p1, p0))])),
-        ('a', Assertion('proof-rule-prop-2', '|-', [imp(imp(p0, imp(p1, p2)), imp(imp(p0, p1), imp(p0, p2)))])),
-        ('a', Assertion('proof-rule-mp', '|-', [p1], ess=[('proof-rule-mp.0', imp(p0, p1)), ('proof-rule-mp.1', p0)])),
+        ('a', Assertion('proof-rule-prop-1', '|-', [imp(V(v1[0]), imp(V(v1[1]), V(v1[0])))])),
+        ('a', Assertion('proof-rule-prop-2', '|-', [imp(imp(V(v2[0]), imp(V(v2[1]), V(v2[2]))),
+                                                        imp(imp(V(v2[0]), V(v2[1])), imp(V(v2[0]), V(v2[2]))))])),
+        ('a', Assertion('proof-rule-mp', '|-', [V(vm[1])], ess=[('proof-rule-mp.0', imp(V(vm[0]), V(vm[1]))), ('proof-rule-mp.1', V(vm[0]))])),
     ]
     # logical axioms and rules
     logical = []
@@ -493,16 +504,16 @@ def gen_database(rng, idx=0, shape=None):
             return None
         fa = facts[rng.choice(order)]
         b = rterm(1)
-        p1n = add(Node(rules[0][1], {fvars[0]: fa.concl, fvars[1]: b}, []))
-        return add(Node(mp, {fvars[0]: fa.concl, fvars[1]: imp(b, fa.concl)}, [p1n, fa]))
+        p1n = add(Node(rules[0][1], {v1[0]: fa.concl, v1[1]: b}, []))
+        return add(Node(mp, {vm[0]: fa.concl, vm[1]: imp(b, fa.concl)}, [p1n, fa]))
 
     def distribute():
         # from P -> (Q -> R) derive (P -> Q) -> (P -> R)
         for f in reversed(order):
             s = tmatch(imp(V('P'), imp(V('Q'), V('R'))), f, {})
             if s is not None and rng.random() < 0.6:
-                p2n = add(Node(rules[1][1], {fvars[0]: s['P'], fvars[1]: s['Q'], fvars[2]: s['R']}, []))
-                return add(Node(mp, {fvars[0]: f, fvars[1]: imp(imp(s['P'], s['Q']), imp(s['P'], s['R']))}, [p2n, facts[f]]))
+                p2n = add(Node(rules[1][1], {v2[0]: s['P'], v2[1]: s['Q'], v2[2]: s['R']}, []))
+                return add(Node(mp, {vm[0]: f, vm[1]: imp(imp(s['P'], s['Q']), imp(s['P'], s['R']))}, [p2n, facts[f]]))
         return None
 
     nsteps = rng.randint(1, 7)
@@ -539,7 +550,7 @@ def gen_database(rng, idx=0, shape=None):
             last = facts[best]
     target = Assertion('goal' if rng.random() < 0.7 else 'thm-%d' % idx, '|-', [last.concl])
     db.items.append(('p', target, None))
-    info = dict(nvars=len(target.vars()), nnot=nnot, nconst=nconst, nax=nax, nrule=nrule, use_app=db.use_app,
+    info = dict(rule_vars='first-floats' if classic or (v1 == fvars[:2] and v2 == fvars[:3] and vm == fvars[:2]) else 'other-floats', nvars=len(target.vars()), nnot=nnot, nconst=nconst, nax=nax, nrule=nrule, use_app=db.use_app,
                 label_style=label_style, shuffled_f=(decl_order != list(names)))
     return db, target, last, info
 
